@@ -245,7 +245,40 @@ def rule3_bounds(ctx, fl):
                'writes into the CPU tables stay inside the %s-entry arrays for every environment value' % length, loc=st.loc,
                detail='index range [%s, %s], table length %s' % (lo, hi, length))
     ctx.ob('C15.3', 'parser output stores found', n >= 1, 'the inlined int_list_add stores into the CPU table were enumerated', loc=f.loc)
-    ctx.floor('C15.3', 2)
+    # the number of usable CPUs is an input (MYTH_CPU_LIST intersected with the affinity mask may be empty): every division or
+    # remainder by a run-time value in this unit is taken only where that value was tested non-zero (seed6 C15/m1)
+    mb = ctx.ssa(BINDF, fl)
+    ndiv = 0
+    for g in mb.functions.values():
+        for dv in g.order:
+            if dv.op not in ('srem', 'urem', 'sdiv', 'udiv') or const_int(dv.ops[1]) is not None:
+                continue
+            ndiv += 1
+            d = dv.ops[1]
+            lo, hi = guard_interval(g, d, dv)
+            ok = (lo is not None and lo >= 1) or (hi is not None and hi <= -1)
+            di = g.insts.get(g.strip(d)) if isinstance(d, str) else None
+            if not ok and di is not None and di.op == 'load' and isinstance(di.ops[0], dict) and di.ops[0].get('g') and not di.volatile:
+                gname = di.ops[0]['g']
+                written = [st for st in g.order if st.op == 'store' and isinstance(g.ap(st.ops[1]).root, dict) and g.ap(st.ops[1]).root.get('g') == gname]
+                for ic in g.order:
+                    if ic.op != 'icmp' or const_int(ic.ops[1]) is None:
+                        continue
+                    li = g.insts.get(g.strip(ic.ops[0])) if isinstance(ic.ops[0], str) else None
+                    if li is None or li.op != 'load' or not isinstance(li.ops[0], dict) or li.ops[0].get('g') != gname or written:
+                        continue
+                    c0 = const_int(ic.ops[1])
+                    nz_true = (ic.pred == 'ne' and c0 == 0) or (ic.pred == 'sgt' and c0 >= 0) or (ic.pred == 'sge' and c0 >= 1)
+                    nz_false = (ic.pred == 'eq' and c0 == 0) or (ic.pred == 'sle' and c0 >= 0) or (ic.pred == 'slt' and c0 >= 1)
+                    if (nz_true and g.on_edge(ic.id, True, dv)) or (nz_false and g.on_edge(ic.id, False, dv)):
+                        # together with a lower bound (assert / earlier test) or on its own for != 0
+                        if ic.pred in ('ne', 'eq', 'sgt', 'sge', 'sle', 'slt'):
+                            ok = True
+            ctx.ob('C15.3', '%s: divisor %s tested non-zero' % (g.name, describe(g, d)), ok,
+                   'a CPU list that names no usable CPU leaves the count at 0: rank % count (or / count) is evaluated only where the '
+                   'count was tested non-zero, otherwise initialisation dies with SIGFPE on a well-formed setting', loc=dv.loc)
+    ctx.ob('C15.3', 'divisions by run-time values enumerated', ndiv >= 1, 'rank % n_available_cpus found', loc='src/' + BINDF, detail=str(ndiv))
+    ctx.floor('C15.3', 4)
 
 
 def bounded_by_var(f, idx, at, length):
@@ -648,6 +681,8 @@ INITC = 'src/myth_init.c'
 BIND = 'src/myth_bind_worker.c'
 INITH = 'src/myth_init_func.h'
 MUTANTS = [
+    {'name': 'worker-to-CPU map divides by an empty CPU set (seed6 C15/m1)', 'expect': 'C15.3',
+     'edits': [('src/myth_bind_worker.c', "  assert(n_available_cpus >= 0);\n  if (n_available_cpus == 0) {\n    return -1;\t\t\t/* no bind */\n  } else {\n    return worker_cpu[rank % n_available_cpus];\n  }", "  if (n_available_cpus < 0) {\n    return -1;\n  }\n  return worker_cpu[rank % n_available_cpus];")]},
     {'name': 'secondary workers start without clearing the scheduler stack pointer that cleanup frees (seed5 C15/m1)', 'expect': 'C15.7',
      'edits': [('src/myth_worker_func.h', "  env=myth_get_current_env();\n  env->sched.stack=NULL;\n  //Call thread scheduler", "  env=myth_get_current_env();\n  //Call thread scheduler")]},
     {'name': 'usable-CPU counter not reset by re-initialisation (seed4 C15/m2)', 'expect': 'C15.4',
